@@ -214,11 +214,9 @@ def rule_state_get(chk, rid):
     m = repo.module(STATE)
     fn = repo.func(STATE, "State.get")
     cfg = CFG(fn)
-    tests = [n for n in cfg.nodes if n.kind == "test" and U(n.ast) == "self.is_error"]
-    ok = len(tests) == 1
-    if ok:
-        tsucc = [mm for mm, lab in cfg.succ[tests[0].id] if lab == "T"][0]
-        ok = cfg.exit not in cfg.reachable(tsucc)
+    # every normal exit (return / falling off the end) lies on the `self.is_error is False` side of a test
+    exits_ = [r for r in cfg.returns() if cfg.is_reachable(r)] + [n.id for n in cfg.nodes if n.kind == "falloff" and cfg.is_reachable(n.id)]
+    ok = bool(exits_) and all(any(txt_ == "self.is_error" and pol is False for _, txt_, pol, _ in dominating_literals(cfg, r)) for r in exits_)
     chk.ob(rid, f"{STATE}.State.get", ok, "an error state never returns data", fn, m, key="raises")
     txt = U(fn)
     from ..lib import find_pattern
